@@ -109,8 +109,10 @@ func (w *ParallelWorkers) startWorker() {
 				err := w.err
 				w.lock.RUnlock()
 				if err != nil {
+					// Skip the task but keep serving: the worker must stay alive to
+					// drain the remaining tasks of this job and to ack Stop.
 					w.sg.Done()
-					return
+					continue
 				}
 				// Attempt to process the job
 				if err := j(); err != nil {
